@@ -15,7 +15,7 @@
 #define private public
 #include "csv/csv_readers.h"
 #undef private
-#include "../../repo/src/csv/csv_writers.cpp"
+#include "csv/csv_writers.cpp"
 #include "vh.h"
 #include "ref/rfc4180.h"
 using namespace BitSerializer;
